@@ -653,6 +653,14 @@ def check_C01(rep):
                 "elements, count, type, root id, error class) and the observed slab forest must flatten to the model sequence")
     rep.assumptions += ["elements are strings of exact encoded size carrying an id; values above the inline limit become separate slabs through the library's own path"]
     array_stages(rep, "ArrayTrace_C01.cfg", "real Array diverges from the plain-sequence model", "c01")
+    quick = rep.tier == "quick"
+    # the boundary where the root index slab is full, every operation at every index
+    array_fan_stage(rep, "ArrayTrace_C01.cfg", "real Array diverges from the plain-sequence model (full root index slab)", "c01")
+    # heterogeneous elements: nested arrays / maps (wrapped or not) as elements, mutated through handles, bulk pops of arrays holding
+    # containers; every call's result and everything read through the root must follow the sequence semantics (NestedTrace, layer A)
+    nested_stage(rep, "c01", "NestedTrace_C01.cfg", "array with nested containers diverges from the sequence model", 256, "{12, 60, 110, 130}",
+                 80 if quick else 1000, 100 if quick else 200, 6, 6, persist=False, kinds='{"A", "M"}')
+    rep.exhaustive = False
 
 
 def check_C05(rep):
@@ -809,6 +817,11 @@ def check_C02(rep):
                 "observed slab forest must hold exactly the dictionary's pairs")
     rep.assumptions += ["keys and values are id-carrying strings; digests come from a table-driven DigesterBuilder through the public interface"]
     map_stages(rep, "MapTrace_C02.cfg", "real OrderedMap diverges from the dictionary model", "c02")
+    quick = rep.tier == "quick"
+    map_fan_stage(rep, "MapTrace_C02.cfg", "real OrderedMap diverges from the dictionary model (full root index slab)", "c02")
+    # nested containers as values, under first-level collisions of the built-in digester (masked), mutated through handles
+    nested_stage(rep, "c02-collide", "NestedTrace_C02.cfg", "map with nested containers diverges from the dictionary model", 256, "{12, 40}",
+                 80 if quick else 1000, 120 if quick else 250, 8, 6, persist=False, nkeys=6, kinds='{"M", "A"}', mask=1)
 
 
 def check_C12(rep):
@@ -1010,17 +1023,18 @@ V_REF = {"name": "ref-commit-at-end-1worker", "sched": "end", "mode": "det", "wo
 # ---------------------------------------------------------------------------
 # nested engine (Nested.tla generator / NestedTrace.tla)
 
-def nested_stage(rep, prefix, tcfg, what, T, sizes, num, depth, maxc=6, maxe=6, persist=True, nkeys=4, kinds='{"A", "M", "C"}', mask=0):
+def nested_stage(rep, prefix, tcfg, what, T, sizes, num, depth, maxc=6, maxe=6, persist=True, nkeys=4, kinds='{"A", "M", "C"}', mask=0, rejects=False):
     nm = "%s-nested%d" % (prefix, T)
     wf, wn = sim_histories(rep, "Nested.tla", "Nested.cfg",
-                           {"MaxC": maxc, "MaxE": maxe, "Sizes": sizes, "NKeys": nkeys, "Persist": "TRUE" if persist else "FALSE", "Kinds": kinds},
+                           {"MaxC": maxc, "MaxE": maxe, "Sizes": sizes, "NKeys": nkeys, "Persist": "TRUE" if persist else "FALSE", "Kinds": kinds,
+                            "Rejects": "TRUE" if rejects else "FALSE"},
                            "Nested T=%d MaxC=%d MaxDepth=3 MaxE=%d Sizes=%s" % (T, maxc, maxe, sizes), {"cfg": {"T": T}}, nm, num, depth)
     base = len(rep.distinct)
     rep.distinct.update(range(base, base + wn))
     hist_stage(rep, nm, ["nested-run"] + (["-builtinmask", str(mask)] if mask else []), "nested", "NestedTrace.tla", tcfg, wf, "full", what)
 
 
-def nested_bfs_stage(rep, prefix, tcfg, what, only=None):
+def nested_bfs_stage(rep, prefix, tcfg, what, only=None, rejects=False):
     """Exhaustive small scope (MC_Nested): every heap shape of <= 3 containers x <= 2-3 elements, every live-handle set, every
     operation through every live handle; each explored transition is replayed (edge mode)."""
     quick = rep.tier == "quick"
@@ -1033,7 +1047,7 @@ def nested_bfs_stage(rep, prefix, tcfg, what, only=None):
         if only and tag not in only:
             continue
         name = "%s-nbfs-%s" % (prefix, tag)
-        files, n, total = model_histories(rep, "MC_Nested.tla", "MC_Nested.cfg", dict(consts, EmitEdges="TRUE"),
+        files, n, total = model_histories(rep, "MC_Nested.tla", "MC_Nested.cfg", dict(consts, EmitEdges="TRUE", Rejects="TRUE" if rejects else "FALSE"),
                                           "MC_Nested %s (all heap shapes, all handles, all ops)" % " ".join("%s=%s" % kv for kv in sorted(consts.items())),
                                           {"cfg": {"T": 256}}, lambda ops, key: frac(key + rep.seed, 1, den), name, timeout=3000)
         base = len(rep.distinct)
@@ -1370,6 +1384,11 @@ def check_C18(rep):
         rep.distinct.update(range(base, base + n))
         multirun_stage(rep, "c18-multirun-" + kind, kind, files, variants, "MultiRunTrace_C04.cfg", "rejected requests change the committed registers")
     exterr_stage(rep)
+    # requests rejected through handles to NESTED containers (any depth): the error, and no trace in the container, its ancestors,
+    # the other roots and the write set
+    nwhat = "request rejected through a nested handle is mis-categorised or leaves a trace"
+    nested_stage(rep, "c18", "NestedTrace_C18.cfg", nwhat, 256, "{12, 60, 110}", 100 if quick else 1000, 100 if quick else 200, 6, 6, rejects=True)
+    nested_bfs_stage(rep, "c18", "NestedTrace_C18.cfg", nwhat, only=("a",), rejects=True)
     rep.exhaustive = False
 
 
@@ -1468,6 +1487,61 @@ def check_C16(rep):
     hist_stage(rep, "c16-schedules", ["conc-run", "-seed", str(rep.seed), "-free", "2" if quick else "6"], "conc", "ConcTrace.tla", "ConcTrace_C16.cfg",
                files, "full", "parallel commit differs from the one-worker run", sigfn=sig)
     rep.stages["c16-schedules"]["schedules_from_tlc"] = len(scheds)
+    # (a') BatchPreload: its own skeleton (PreloadConc.tla: decoders started before the jobs are sent, job queue closed by a deferred
+    # close at function return, LIFO defers), every interleaving; schedules forced on the real BatchPreload
+    pcombos = []
+    for w in (1, 2, 3):
+        for (rf, de) in [(0, 0)] + [(k, 0) for k in range(1, nj + 2)] + [(0, k) for k in range(1, nj + 1)]:
+            if quick and (rf in (2, 3) or de == 2):
+                continue
+            pcombos.append((w, rf, de))
+
+    def run_pre(c, order="lifo", emit=True):
+        w, rf, de = c
+        name = "c16-pc-%d-%d-%d-%s" % (w, rf, de, order)
+        d = vlib.tlc_dir(name)
+        text = open(os.path.join(d, "PreloadConc.cfg")).read()
+        for k, v in {"W": w, "NJobs": nj, "Pad": 1, "ReadFail": rf, "DecErr": de, "DeferOrder": '"%s"' % order,
+                     "EmitSchedules": "TRUE" if emit else "FALSE"}.items():
+            text = re.sub(r"(?m)^(\s*%s\s*=\s*).*$" % k, lambda m: m.group(1) + str(v), text)
+        open(os.path.join(d, "PreloadConc.cfg"), "w").write(text)
+        so = os.path.join(d, "stdout.txt")
+        r = vlib.run_tlc(d, "PreloadConc.tla", "PreloadConc.cfg", workers=2, timeout=900, stdout_file=so, heap="2g")
+        lines = list(set(vlib.emitted_lines(so)))
+        shutil.rmtree(d, ignore_errors=True)
+        return c, r, lines
+    pscheds = set()
+    with concurrent.futures.ThreadPoolExecutor(max_workers=6) as ex:
+        for c, r, lines in ex.map(run_pre, pcombos):
+            if not r.ok:
+                raise Inconclusive("PreloadConc %s failed in the MODEL: %s" % (c, r.out[-1500:]))
+            rep.add_model("PreloadConc W=%d NJobs=%d ReadFail=%d DecErr=%d (all interleavings, liveness)" % (c[0], nj, c[1], c[2]), r)
+            pscheds.update(lines)
+    # non-vacuity of the model: with the two deferred steps in the opposite order TLC must find the deadlock
+    _, rdead, _ = run_pre((2, 0, 0), order="fifo", emit=False)
+    if "Deadlock reached" not in rdead.out and "Temporal properties were violated" not in rdead.out:
+        raise Inconclusive("PreloadConc with reversed defers should deadlock in the model but did not: " + rdead.out[-800:])
+    rep.note("PreloadConc with the deferred steps in the opposite (FIFO) order: TLC finds the deadlock, as it must (model is not vacuous)")
+    pall = sorted(pscheds)
+    for (w, n) in ((2, 6), (4, 13)) if quick else ((2, 6), (4, 13), (7, 40)):
+        for (rf, de) in ((0, 0), (1, 0), (n, 0), (n + 3, 0), (0, 1), (0, n)):
+            pall.append(json.dumps({"w": w, "n": n, "readfail": rf, "decerr": de, "order": []}))
+    pfiles = [os.path.join(vlib.scratch(), "c16-psched-%d.ndjson" % k) for k in range(PARTS)]
+    fh = [open(f, "w") for f in pfiles]
+    for f in fh:
+        f.write(json.dumps({"cfg": {}}) + "\n")
+    for i, c in enumerate(pall):
+        fh[i % PARTS].write(c + "\n")
+    for f in fh:
+        f.close()
+    base = len(rep.distinct)
+    rep.distinct.update(range(base, base + len(pall)))
+
+    def psig(rec, trace, why, hist):
+        return "preload:%s" % why
+    hist_stage(rep, "c16-preload-schedules", ["preload-run", "-seed", str(rep.seed), "-free", "2" if quick else "6"], "conc", "PreloadTrace.tla",
+               "PreloadTrace_C16.cfg", pfiles, "full", "parallel BatchPreload differs from the model's outcome / the one-worker call", sigfn=psig)
+    rep.stages["c16-preload-schedules"]["schedules_from_tlc"] = len(pscheds)
     # (c) pools
     exe = vlib.build_harness()
     outs = []
